@@ -49,6 +49,9 @@ CORPUS = [
     ((1, 2, [1]), ["g:1:7", "l:0", "a:0.0.0.0", "l:0", "u", "s:0:0:C", "l:0", "g:0:8", "l:1", "s:1:0:C", "l:1"]),
     # two requests for the same segment + one for another, fetch_failed then success
     ((1, 2, []), ["g:0:0", "g:0:1", "g:1:2", "l:0", "n", "l:0", "a:0.0.0.3", "l:1", "s:1:0:C", "l:1"]),
+    # seeded C46-b: the finder is exhausted by a failed segment; a later request on the same node must fail too (not hang):
+    # every new fetcher has to ask want_more_shares again
+    ((2, 2, []), ["g:0:0", "l:0", "a:0.0.0.1", "l:0", "n", "l:0", "g:1:1", "l:1", "n", "l:1"]),
     # cancel of the only request of the active segment, bad segment number
     ((2, 1, []), ["g:0:0", "l:0", "c:0", "g:3:1", "u", "l:1", "c:0", "g:0:2", "a:0.0.0.1,1.1.0.2", "l:2", "l:2"]),
 ]
@@ -142,6 +145,7 @@ def late_error_monitor(ctx, sc, out):
 
 def run(ctx):
     common.setup_impl_path()
+    B = (lambda q, t: 0) if fc.corpus_only() else ctx.budget
     ncases, impl, lines = [], [], []
     scenarios = []
     late = []
@@ -174,7 +178,7 @@ def run(ctx):
                               % (info["waiting"], info["active"]), ncases[-1],
                               "stuck-after-decode-failure" if any(r.endswith("=decode-failed") for r in info["retired"])
                               else "request-never-retired")
-        for i in range(ctx.budget(500, 20000)):
+        for i in range(B(500, 20000)):
             malformed = (i % 3 == 2)
             p, toks, digs, info = fc.gen_node_script(ctx.rng, malformed=malformed, max_events=220)
             ncases.append({"kind": "node", "params": [p[0], p[1], list(p[2])], "toks": toks})
@@ -189,19 +193,21 @@ def run(ctx):
                 ctx.count("node-cancel")
             if len(toks) < 220:
                 node_monitor(ctx, p, toks, info)
-        for i in range(ctx.budget(200, 6000)):
+        for i in range(B(200, 6000)):
             scenarios.append(fc.gen_scenario(ctx.rng, want_crafted=(i % 3 == 0)))
+        for name, sc in fc.GRID_CORPUS:                    # fixed end-to-end corpus, one history per known mechanism
+            scenarios.insert(0, dict(sc, corpus=name))
         # corpus: the reader's guess (1000) is smaller than the real segment size (2000): first reads on a fresh
         # node at offsets whose guessed segment number (2) is >= the real number of segments (2)
         scenarios.append({"kind": "grid", "k": 1, "n": 2, "servers": 2, "segsize": 2000, "gmax": 1000, "fresh_nodes": True,
                           "size": 3000, "grid_seed": 5, "policy": "fifo", "dataseed": 6, "copies": [], "share_faults": [],
                           "server_plans": {}, "reads": [[[2500, 50]], [[2999, 1], [2100, 700]], [[1500, 10]]], "crafted": []})
-        for i in range(ctx.budget(50, 1500)):
+        for i in range(B(50, 1500)):
             scenarios.append(fc.gen_badguess_scenario(ctx.rng, faults=(i % 2 == 1)))
-        if ctx.tier == "thorough":
+        if ctx.tier == "thorough" and not fc.corpus_only():
             scenarios.append(fc.big_badguess_scenario())
         late.append(fc.gen_late_error_scenario(None, canonical=True))      # corpus: minimised history
-        for i in range(ctx.budget(20, 350)):
+        for i in range(B(20, 350)):
             late.append(fc.gen_late_error_scenario(ctx.rng))
     # ---- Segmentation (one read) scripts: the real class with a fake node
     scases, simpl, slines = [], [], []
@@ -223,7 +229,7 @@ def run(ctx):
             simpl.append(";".join(digs))
             slines.append("seg %d %d %d %d %s" % (params + (" ".join(toks),)))
             ctx.case(("S", params, tuple(toks)))
-        for i in range(ctx.budget(600, 20000)):
+        for i in range(B(600, 20000)):
             params, toks, digs, info = fc.gen_seg_script(ctx.rng)
             case = {"kind": "seg", "params": list(params), "toks": toks}
             scases.append(case)
